@@ -409,10 +409,12 @@ class Topology(ABC):
         :return:
         """
         ns = self._get_ns_by_name(name=name)
-        # if peered with other services, remove their side of the peering as well
-        for i in ns.interface_list:
-            for peer in i.get_peers(itype=InterfaceType.ServicePort) or []:
-                self.graph_model.remove_cp_and_links(node_id=peer.node_id)
+        # if peered with other services, remove their side of the peering as well; for a node's own
+        # service the same goes for the sub-interfaces of its ports, which connect to services on their own
+        for pi in ns.interface_list:
+            for i in (pi,) + tuple(pi.interface_list):
+                for peer in i.get_peers(itype=InterfaceType.ServicePort) or []:
+                    self.graph_model.remove_cp_and_links(node_id=peer.node_id)
         self.graph_model.remove_ns_with_cps_and_links(node_id=ns.node_id)
 
     def _get_node_by_name(self, name: str) -> Node:
